@@ -45,7 +45,10 @@ def main() -> None:
                         name = os.ttyname(U._tty_fd)
                     except OSError:  # hung up: the same descriptor still stands for the same device
                         name = loaded[1] if U._tty_fd == loaded[0] else "?"
-                out = {"size": list(U.get_terminal_size()), "name": name}
+                try:
+                    out = {"size": list(U.get_terminal_size()), "name": name}
+                except Exception as e:  # reported with the terminal's identity, judged by the parent
+                    out = {"size": [-1, -1], "name": name, "exc": f"{type(e).__name__}: {e}"}
             elif c["op"] == "env":
                 for k in ("COLUMNS", "LINES"):
                     if c.get(k) is None:
